@@ -108,6 +108,7 @@ fn perm_lists(quick: bool) -> Vec<(String, String)> {
             out.push(("bob".to_string(), format!("{} {}", kinds, p)));
         }
     }
+    out.push(("bob".to_string(), "rwix *".to_string()));
     out.push(("bob".to_string(), "r k*|w *k".to_string()));
     out.push(("bob".to_string(), "rx zz,akb".to_string()));
     out.push(("all".to_string(), "r k*".to_string()));
@@ -140,12 +141,14 @@ impl C09 {
             letters.push(format!("<admin> set-permissions {} {}", u, l));
             expandable.push(true);
         }
+        letters.push("<admin> remove $$permission_$bob".to_string());
+        expandable.push(true);
         C09 { letters, expandable, n_perm_letters }
     }
 }
 
 fn v(clause: &str, detail: String) -> Vec<StepViolation> {
-    vec![StepViolation { clause: clause.to_string(), detail }]
+    vec![StepViolation { clause: clause.to_string(), detail, shape: None }]
 }
 
 const REFUSAL_MSGS: &[&str] = &["error no-db-selected\n", "permission denied\n"];
@@ -189,6 +192,10 @@ impl SeqModel for C09 {
             if o.resp != "Ok" {
                 return v("reply-mismatch", format!("admin `{}`: {:?}", rest, o));
             }
+            if rest.starts_with("remove ") {
+                w.perms.remove("bob");
+                return vec![];
+            }
             let mut it = rest.splitn(3, ' ');
             it.next();
             let user = it.next().unwrap().to_string();
@@ -205,7 +212,7 @@ impl SeqModel for C09 {
         }
         let after = full_state(w);
         // unwrap rp: the inner request is judged, the ack line is transport noise
-        let mut req = match Request::parse(line.trim_matches('\n')) {
+        let mut req = match std::panic::catch_unwind(|| Request::parse(line.trim_matches('\n'))).unwrap_or(Err("parser panic".into())) {
             Ok(r) => r,
             Err(_) => {
                 if after != before {
@@ -327,6 +334,30 @@ pub fn run(run: &mut Run) {
     let res = explore(&m, &cfg);
     super::seq_report(run, &m, &res, &cfg);
     run.cov("permission_lists", serde_json::json!(m.n_perm_letters));
+    // narrow and deep, without state merging: permission changes (incl. revocation) interleaved
+    // with the user's own data commands, so that per-session or cached implementation state the
+    // state key does not know about cannot hide a stale decision
+    let deep: Vec<&str> = vec![
+        "<admin> set-permissions bob rwix *",
+        "<admin> set-permissions bob r k*",
+        "<admin> set-permissions bob w *k",
+        "<admin> remove $$permission_$bob",
+        "get kx",
+        "set kx v",
+        "set xk v",
+        "remove kx",
+        "increment akb",
+    ];
+    let sub: Vec<usize> = deep.iter().map(|d| m.letters.iter().position(|l| l == d).unwrap_or_else(|| panic!("deep letter {} missing", d))).collect();
+    let depth = if quick { 5 } else { 7 };
+    let bob = m.letters.iter().position(|l| l == "use-db t bob bt").unwrap();
+    let res2 = explore_all_histories(&m, &[bob], &sub, depth, crate::util::workers(), std::time::Duration::from_secs(if quick { 30 } else { 1200 }));
+    run.cov("deep_pass", serde_json::json!({"prefix": ["use-db t bob bt"], "alphabet": deep, "depth": depth, "histories": res2.histories, "transitions": res2.transitions, "complete": res2.exhausted_bound, "merging": false}));
+    let cfg2 = SeqConfig { max_depth: depth, workers: 0, max_states: 0, budget: std::time::Duration::from_secs(0) };
+    let exhaustive1 = run.coverage.get("exhaustive").and_then(|v| v.as_bool()).unwrap_or(false);
+    super::seq_report(run, &m, &res2, &cfg2);
+    run.cov("exhaustive", serde_json::json!(exhaustive1 && res2.exhausted_bound));
+    run.cov("depth_bound", serde_json::json!(cfg.max_depth));
     run.assume("prefixes range over credential letters (auth wrong, use-db with valid/invalid db and user tokens) and administrator permission changes; every command line of the alphabet is then tried once in every reached state");
     run.assume("`election <x>` (election-active form) only queues a broadcast; queued traffic is not counted as state");
     run.assume("`arbiter` registration is judged as needing a selection only (notices are only produced on arbiter databases)");
